@@ -328,7 +328,15 @@ def rule_lit(ctx: Ctx) -> RuleResult:
     rr.instances += 1
     asg = [n for n in walk_no_nested(init.node) if isinstance(n, ast.Assign) and isinstance(n.targets[0], ast.Subscript)
            and "max_literals" in norm(n.targets[0])]
-    ok = len(asg) == 1 and norm(asg[0].value) == "int(max_literals)" and not _conditional(init, asg[0])
+    def _is_limit(v: ast.AST) -> bool:
+        # int(max_literals), directly or through a local bound once to it, unconditionally
+        if norm(v) == "int(max_literals)":
+            return True
+        if isinstance(v, ast.Name):
+            ds = [d for d in walk_no_nested(init.node) if isinstance(d, ast.Assign) and any(norm(t_) == v.id for t_ in d.targets)]
+            return len(ds) == 1 and norm(ds[0].value) == "int(max_literals)" and not _conditional(init, ds[0])
+        return False
+    ok = len(asg) == 1 and _is_limit(asg[0].value) and not _conditional(init, asg[0])
     rr.ob(init.relpath, init.qualname, norm(asg[0]) if asg else "max_literals", "the configured maximum is stored in this "
           "generator's own style table, as an int, unconditionally", DISCHARGED if ok else VIOLATED,
           "types_style[StringLiteral][max_literals] = int(max_literals)" if ok else "limit not stored / transformed / conditional",
